@@ -59,7 +59,7 @@ def main():
                                                                                  "" if ok else [f for f in got if f[0] == i + 1]))
     import shutil
     shutil.rmtree(run.work, ignore_errors=True)
-    json.dump(results, open(os.path.join(vlib.VERIF, "evidence", "selftest_binding.json"), "w"), indent=1)
+    json.dump(results, open(os.path.join(vlib.VERIF, "selftest", "binding.json"), "w"), indent=1)
     return 0 if all(r["ok"] for r in results) else 1
 
 
